@@ -366,6 +366,18 @@ func checkC12(c *Ctx) {
 					map[string]interface{}{"doc_hex": fmt.Sprintf("%x", doc), "doc_text": printable(doc), "query": "As" + kd.kind, "bulk": trunc(kd.got, 300), "traversal": trunc(want, 300)})
 			}
 		}
+		// the same array after some of its elements were deleted (NOP gaps): bulk accessors
+		// must still return what plain traversal returns
+		if i%3 == 0 {
+			out2 := implParse(doc, false, true, nil)
+			if !out2.Err {
+				it2 := iterAt(out2.PJ, 2)
+				if a2, err := it2.Array(nil); err == nil {
+					a2.DeleteElems(func(simdjson.Iter) bool { return r.Chance(1, 3) })
+					c.bulkVsTraversal(out2.PJ, append(append([]byte{}, doc...), " after DeleteElems"...), 2)
+				}
+			}
+		}
 		addQ(doc, "asnum "+st+" 2 float", safeStr(func() string { return fmtF(arrAt().AsFloat()) }), "AsFloat")
 		addQ(doc, "asnum "+st+" 2 int", safeStr(func() string { return fmtI(arrAt().AsInteger()) }), "AsInteger")
 		addQ(doc, "asnum "+st+" 2 uint", safeStr(func() string { return fmtU(arrAt().AsUint64()) }), "AsUint64")
